@@ -33,8 +33,9 @@ FLAVOURS = {
     "plain": dict(cxx="g++", cc="gcc", flags="-O1 -g1 -D%s" % GUARD, fuzz=False),
     "fuzz": dict(
         cxx="clang++-14", cc="clang-14",
+        # pointer-overflow off for the same reason as in `san` (libFuzzer would stop at the first valid adjustment)
         flags="-O1 -g -fno-omit-frame-pointer -fsanitize=fuzzer-no-link,address,undefined "
-              "-fno-sanitize=object-size -fno-sanitize-recover=all -D%s" % GUARD, fuzz=True),
+              "-fno-sanitize=object-size,pointer-overflow -fno-sanitize-recover=all -D%s" % GUARD, fuzz=True),
 }
 
 SAN_ENV = {
